@@ -27,12 +27,28 @@ def cases(draw, tier='quick'):
     return {'domain': dom, 'meas': meas, 'n_public': draw(st.integers(1, 40)), 'pub_seed': draw(st.integers(0, 2**31 - 1)),
             'pub_skew': draw(st.sampled_from([0.0, 1.0, 3.0])),
             'data_seed': draw(st.integers(0, 2**31 - 1)), 'total': draw(st.sampled_from([0.5, 1, 10, 1000.0, None, None])),
-            'true_total': draw(st.sampled_from([1.0, 40.0, 500.0])), 'metric': draw(st.sampled_from(['L2'] * 5 + ['L1'])),
+            'true_total': draw(st.sampled_from([1.0, 40.0, 500.0])), 'metric': draw(st.sampled_from(['L2', 'L2', 'L1'])),
             'conflict': draw(st.integers(0, 4)) == 0}
 
 
+@st.composite
+def tug_cases(draw):
+    """Tug of war between measurements of different precision on perfectly correlated public data: which side wins
+    depends on how the noise scales weight the residuals, so a mis-weighted objective ends above the uniform start."""
+    k = draw(st.integers(3, 5))
+    names = list(draw(st.permutations(gen.NAMES[:k])))
+    s1 = draw(st.sampled_from([1.0, 2.0, 0.5]))
+    r = draw(st.sampled_from([0.3, 0.4, 0.5, 0.7]))
+    push = draw(st.sampled_from([1.0, 2.0, 5.0]))
+    pull = draw(st.sampled_from([10.0, 20.0, 30.0]))
+    return {'tug': True, 'domain': {'attrs': names, 'shape': [2] * k}, 'n_public': draw(st.integers(10, 60)), 'pub_seed': draw(st.integers(0, 2**31 - 1)),
+            'total': draw(st.sampled_from([100.0, 50.0])), 'metric': draw(st.sampled_from(['L1', 'L1', 'L2'])),
+            's1': s1, 's2': s1 * r, 'push': push, 'pull': pull, 'flip': draw(st.booleans()),
+            'meas': [], 'pub_skew': 0.0, 'data_seed': 0, 'true_total': 1.0, 'conflict': False}
+
+
 def strategy(tier):
-    return cases(tier)
+    return st.one_of(cases(tier), cases(tier), cases(tier), cases(tier), tug_cases())
 
 
 def weighted_table(recs, w, shape):
@@ -54,12 +70,28 @@ def run_case(case):
         p = np.exp(-case['pub_skew'] * rng.permutation(s).astype(float)); p /= p.sum()
         cols.append(rng.choice(s, size=n, p=p))
     recs = np.stack(cols, axis=1).astype(np.int64)
+    if case.get('tug'):
+        half = rng.permutation(n) < max(1, n // 2)
+        recs = np.tile(half.astype(np.int64)[:, None], (1, len(attrs)))
     df = pd.DataFrame(recs, columns=attrs)
     df0 = df.copy()
     public = mbi.Dataset(df, domain)
     tt = case['total'] if case['total'] is not None else case['true_total']
     X = inf.true_table(case['data_seed'], shape, tt, conc=0.3)
     meas = inf.expand(case['meas'], attrs, shape, X)
+    if case.get('tug'):
+        tot = float(case['total'])
+        U = weighted_table(recs, np.full(n, tot / n), shape)
+        sgn = -1.0 if case['flip'] else 1.0
+        specs = []
+        for j, a in enumerate(attrs):
+            last = j == len(attrs) - 1
+            m = inf.Meas({'proj': [a], 'q': {'kind': 'identity', 'rows': 2, 'seed': 0, 'c': 1.0}, 'noise': case['s2'] if last else case['s1'], 'yseed': 0, 'noise_mult': 0.0}, attrs, shape, U)
+            d = (-case['pull'] if last else case['push']) * sgn
+            m.y = m.y + np.array([d, -d])
+            specs.append(m)
+        meas = specs
+        out.classes.append('tug_of_war')
     if case['conflict']:
         for i, m in enumerate(meas):
             r = np.random.Generator(np.random.PCG64(case['data_seed'] + i))
@@ -74,7 +106,7 @@ def run_case(case):
     eng = mbi.PublicInference(public, metric=case['metric'])
     est = eng.estimate(ms, total=case['total'])
     w = np.asarray(est.weights, dtype=float)
-    out.classes = ['metric:' + case['metric'], 'total:' + ('given' if case['total'] is not None else 'estimated')]
+    out.classes += ['metric:' + case['metric'], 'total:' + ('given' if case['total'] is not None else 'estimated')]
     if w.shape != (n,):
         return out.fail('invalid:length', 'weights have shape %s for %d public records' % (w.shape, n))
     if not np.all(np.isfinite(w)) or w.min() < 0:
